@@ -427,6 +427,24 @@ theorem step_insertCell (s : LSt) (i : Nat) (first : Bool) (sl : SlotB) : Step s
 
 /-! ## `collect` -/
 
+/-- the destruction of the signal object named `g` (what `delG` does when it does not refuse, and what `collect`
+    does to a functor-owned signal object nobody holds any more) -/
+theorem step_dropHandle (s : LSt) (g : Nat) : Step s (dropHandle s g) := by
+  unfold dropHandle
+  split
+  · exact Step.refl s
+  · rename_i h _
+    have h1 : Step s (if h.fl.isTrackable then invalidateTrackable s h.trk else s) := by
+      split
+      · exact step_invalidate _ _
+      · exact Step.refl s
+    refine Step.trans h1 ?_
+    generalize (if h.fl.isTrackable then invalidateTrackable s h.trk else s) = s1
+    refine Step.trans (step_frame (s' := { s1 with G := adel s1.G g }) rfl (Nat.le_refl _) rfl rfl) ?_
+    cases h.impl with
+    | some im => exact step_gcSig _ _
+    | none => exact Step.refl _
+
 theorem step_collectStep (s s' : LSt) (h : collectStep s = some s') : Step s s' := by
   unfold collectStep at h
   split at h
@@ -439,7 +457,13 @@ theorem step_collectStep (s s' : LSt) (h : collectStep s = some s') : Step s s' 
       rw [← h]
       exact Step.trans (step_frame rfl (Nat.le_refl _) rfl rfl)
         (step_disconnect { s with ownedK := s.ownedK.filter (fun q => q.1 ≠ k) } p)
-    · simp at h
+    · split at h
+      · rename_i k g _
+        simp only [Option.some.injEq] at h
+        rw [← h]
+        exact Step.trans (step_frame rfl (Nat.le_refl _) rfl rfl)
+          (step_dropHandle { s with ownedG := s.ownedG.filter (fun q => q.1 ≠ k) } g)
+      · simp at h
 
 theorem step_collectN (n : Nat) : ∀ s, Step s (collectN n s) := by
   induction n with
